@@ -1288,6 +1288,52 @@ gen_list_case(Src& s, int kind, int fam, int lmode, int amount)
   return c;
 }
 
+
+//! (ext5) a "cut pair" case: a library-written header (or the Siemens samples), unmutated, a complete data file, the natural reader;
+//! the header is cut at the lines given by "cuts" (interpreted modulo the number of lines; negative: counted from the end;
+//! empty list = every line), once directly behind the end-of-line of line k and once directly before it.
+json
+gen_cut_case(Src& s, int kind, bool all_lines)
+{
+  json c;
+  c["raw"] = false;
+  c["cutpair"] = true;
+  if (kind < 0)
+    {
+      static const std::vector<int> kinds = { H_IMAGE, H_IMAGE, H_DYNAMIC, H_PARAMETRIC, H_PDFS, H_PDFS, H_PDFS_TOF, H_SPECT, H_SIEMENS, H_MULTI, H_SIEMENS_LM };
+      kind = int(s.pick(kinds));
+    }
+  c["kind"] = kind;
+  c["spec"] = gen_spec(s, kind);
+  if (kind <= H_SPECT)
+    {
+      // values that differ from what a reader assumes when the line is absent: a lost last line must show
+      json& sp = c["spec"];
+      if (s.coin())
+        sp["scale"] = s.nice_real(1.5, 8.);
+      if (s.coin())
+        sp["offset"] = int(s.range(1, 64));
+    }
+  c["okind"] = int(H_MULTI);
+  c["ospec"] = gen_spec(s, H_MULTI);
+  c["muts"] = json::array();
+  json cuts = json::array();
+  if (!all_lines)
+    {
+      const int n = int(s.range(3, 8));
+      for (int i = 0; i < n; ++i)
+        cuts.push_back(s.coin() ? -long(s.range(1, 8)) : long(s.range(0, 199))); // half of them among the last 8 lines
+    }
+  c["cuts"] = cuts;
+  c["eol"] = int(s.range(0, 2)); // 0 as written ("\n"), 1 every line "\r\n", 2 as written, and the stop key line dropped first
+  c["target"] = natural_target(s, kind);
+  c["sub"] = kind == H_SIEMENS_LM ? 4 : int(s.range(0, 1));
+  c["dmode"] = 0;
+  c["dlen"] = 1L;
+  c["dseed"] = long(s.range(0, 255));
+  return c;
+}
+
 json
 gen(Src& s, int size)
 {
@@ -1314,6 +1360,8 @@ gen(Src& s, int size)
   c["raw"] = false;
   if (mode >= 12)
     return gen_list_case(s, -1, -1, -1, -1);
+  if (mode == 11)
+    return gen_cut_case(s, -1, false);
   const int kind = int(s.range(0, H_NKINDS - 1));
   c["kind"] = kind;
   c["spec"] = gen_spec(s, kind);
@@ -1346,7 +1394,22 @@ struct Outcome
   bool read_all_ok = false;  // projdata: every viewgram could be read
   bool read_attempted = false;
   bool reached_post_processing = false;
+  std::string fp; // (ext5) fingerprint of the accepted object: everything the readers took from the header, as text
 };
+
+// ---- (ext5) fingerprint of an accepted object: sizes / index ranges, voxel sizes, origin, exam info, time frames, the data values
+// (they depend on number type, byte order, offset and scale factors of the header), for projection data also the ProjDataInfo
+// text and the stream parameters.  Two parses of texts that have to mean the same must give the same fingerprint (exact
+// string equality: the same code ran on the same numbers).
+template <class T>
+void
+fp_add(std::string& fp, const char* name, const T& v)
+{
+  std::ostringstream s;
+  s.precision(9);
+  s << name << "=" << v << ";";
+  fp += s.str();
+}
 
 template <class ImageT>
 void
@@ -1370,6 +1433,20 @@ inspect_image(const ImageT& im, Outcome& o)
   (void)sum;
   (void)im.get_origin();
   (void)im.get_exam_info().get_time_frame_definitions().get_num_frames();
+  {
+    double wsum = 0;
+    long i = 0;
+    for (auto it = im.begin_all(); it != im.end_all(); ++it, ++i)
+      wsum += double(*it) * double(1 + i % 97);
+    fp_add(o.fp, "min", cat(mn[1], ",", mn[2], ",", mn[3]));
+    fp_add(o.fp, "max", cat(mx[1], ",", mx[2], ",", mx[3]));
+    fp_add(o.fp, "origin", cat(im.get_origin()[1], ",", im.get_origin()[2], ",", im.get_origin()[3]));
+    if (const auto* v = dynamic_cast<const VoxelsOnCartesianGrid<float>*>(&im))
+      fp_add(o.fp, "voxel", cat(v->get_voxel_size()[1], ",", v->get_voxel_size()[2], ",", v->get_voxel_size()[3]));
+    fp_add(o.fp, "sum", sum);
+    fp_add(o.fp, "wsum", wsum);
+    fp_add(o.fp, "exam", im.get_exam_info().parameter_info());
+  }
 }
 
 void
@@ -1392,7 +1469,22 @@ inspect_projdata(ProjData& pd, Outcome& o)
   if (std::size_t(total) != pdi->size_all() && o.inconsistency.empty())
     o.inconsistency = cat("sum over segments ", total, " != ProjDataInfo::size_all() ", pdi->size_all());
   (void)pd.get_exam_info().get_time_frame_definitions().get_num_frames();
-  (void)pdi->parameter_info();
+  fp_add(o.fp, "pdi", pdi->parameter_info());
+  fp_add(o.fp, "exam", pd.get_exam_info().parameter_info());
+  if (const auto* pdfs = dynamic_cast<const ProjDataFromStream*>(&pd))
+    {
+      fp_add(o.fp, "order", int(pdfs->get_storage_order()));
+      fp_add(o.fp, "offset", long(pdfs->get_offset_in_stream()));
+      fp_add(o.fp, "type", int(pdfs->get_data_type_in_stream().id));
+      fp_add(o.fp, "big_endian", pdfs->get_byte_order_in_stream() == ByteOrder::big_endian);
+      fp_add(o.fp, "scale", pdfs->get_scale_factor());
+      std::string sq;
+      for (int x : pdfs->get_segment_sequence_in_stream())
+        sq += std::to_string(x) + ",";
+      fp_add(o.fp, "sequence", sq);
+    }
+  double fp_wsum = 0;
+  long fp_i = 0;
   // read everything when it is small (lazy reader: only now the data file is looked at)
   if (total >= 0 && total <= long(MAX_DATA_BYTES))
     {
@@ -1406,8 +1498,11 @@ inspect_projdata(ProjData& pd, Outcome& o)
                 {
                   const Viewgram<float> vg = pd.get_viewgram(v, sgm, false, t);
                   double sum = 0;
-                  for (auto it = vg.begin_all(); it != vg.end_all(); ++it)
-                    sum += double(*it);
+                  for (auto it = vg.begin_all(); it != vg.end_all(); ++it, ++fp_i)
+                    {
+                      sum += double(*it);
+                      fp_wsum += double(*it) * double(1 + fp_i % 97);
+                    }
                   (void)sum;
                 }
         }
@@ -1420,6 +1515,9 @@ inspect_projdata(ProjData& pd, Outcome& o)
           ok = false;
         }
       o.read_all_ok = ok;
+      fp_add(o.fp, "read", ok);
+      if (ok)
+        fp_add(o.fp, "wsum", fp_wsum);
     }
 }
 
@@ -1995,7 +2093,11 @@ run_target_impl(int target, int sub, const std::string& hdr_path, const std::str
                       o.inconsistency = "frames of a dynamic image have different sizes";
                     if (!fo.inconsistency.empty())
                       o.inconsistency = fo.inconsistency;
+                    o.fp += cat("frame", f, ":{", fo.fp, "}");
                   }
+                for (unsigned fr = 1; fr <= d->get_time_frame_definitions().get_num_frames(); ++fr)
+                  fp_add(o.fp, "tf", cat(d->get_time_frame_definitions().get_start_time(fr), "+", d->get_time_frame_definitions().get_duration(fr)));
+                fp_add(o.fp, "dyn_exam", d->get_exam_info().parameter_info());
                 o.is_image = true;
                 ImgFacts f;
                 f.dims = o.dims;
@@ -2033,6 +2135,7 @@ run_target_impl(int target, int sub, const std::string& hdr_path, const std::str
                     inspect_image(p->construct_single_density(int(k)), fo);
                     if (fo.dims != o.dims && o.inconsistency.empty())
                       o.inconsistency = "a single parameter image has another size than the parametric image";
+                    o.fp += cat("param", k, ":{", fo.fp, "}");
                   }
                 ImgFacts f;
                 f.dims = o.dims;
@@ -2093,6 +2196,8 @@ run_target_impl(int target, int sub, const std::string& hdr_path, const std::str
                         break;
                       }
                   }
+                for (std::size_t i = 0; i < h.get_num_data_sets() && i < 1000 && o.inconsistency.empty(); ++i)
+                  fp_add(o.fp, "set", c17::enc(h.get_filename(i)));
                 if (model_kind == H_MULTI && o.inconsistency.empty())
                   o.inconsistency = model_multi(text, h);
               }
@@ -2139,6 +2244,8 @@ run_target_impl(int target, int sub, const std::string& hdr_path, const std::str
                     {
                       // accessors of the accepted header and of its ProjDataInfo
                       const ProjDataInfo& pdi = *h.data_info_ptr;
+                      fp_add(o.fp, "pdi", pdi.parameter_info());
+                      fp_add(o.fp, "exam", h.get_exam_info().parameter_info());
                       if (pdi.get_num_views() != h.get_num_views() || pdi.get_num_tangential_poss() != h.get_num_projections())
                         o.inconsistency = cat("listmode header says ", h.get_num_views(), " views x ", h.get_num_projections(), " projections, its ProjDataInfo has ",
                                               pdi.get_num_views(), " x ", pdi.get_num_tangential_poss());
@@ -2218,6 +2325,7 @@ outcome_to_json(const Outcome& o, std::size_t refused, std::size_t max_single)
   j["inconsistency"] = c17::enc(o.inconsistency);
   j["read_all_ok"] = o.read_all_ok;
   j["read_attempted"] = o.read_attempted;
+  j["fp"] = c17::enc(o.fp);
   j["refused"] = refused;
   j["max_single"] = max_single;
   return j;
@@ -2235,6 +2343,7 @@ outcome_from_json(const json& j, Outcome& o, std::size_t& refused, std::size_t& 
   o.inconsistency = j["inconsistency"].get<std::string>();
   o.read_all_ok = j["read_all_ok"];
   o.read_attempted = j["read_attempted"];
+  o.fp = j.value("fp", std::string());
   refused = j["refused"];
   max_single = j["max_single"];
 }
@@ -2601,8 +2710,6 @@ ask_asan_flavour_uncached(const json& c)
 }
 #endif
 
-bool g_last_nontrivial = false;
-
 std::string
 reason_class(const std::string& how)
 {
@@ -2613,6 +2720,165 @@ reason_class(const std::string& how)
   return r;
 }
 
+bool g_last_nontrivial = false;
+
+// ---- (ext5) the truncation clause as a metamorphic relation -------------------------------------------------------------------
+// "truncation at every line and byte": a header cut directly BEFORE the end-of-line character of line k and the same header
+// cut directly BEHIND it consist of the same lines (KeyParser.h: "reads input line by line and parses each line separately";
+// std::getline returns a last line without end-of-line like any other line).  Both must get the same accept / reject
+// decision from the same reader and, if accepted, give the same object (fingerprint: sizes, voxel sizes, origin, exam info,
+// time frames, stream parameters, data values = number type x byte order x offset x scale factors).  For "\r\n" headers
+// ("It allows for '\r' at the end of the line (as in files originating in DOS/Windows)") the cut between '\r' and '\n' and
+// the cut before "\r\n" are both compared with the cut behind "\r\n", and the complete "\r\n" header with the complete "\n"
+// header.  Nothing is demanded about WHICH decision a truncated header gets.
+Result
+check_cut_pairs(const json& c)
+{
+  const int kind = int(c["kind"].get<int>() % H_NKINDS);
+  const int target = int(c["target"].get<int>() % T_NTARGETS);
+  const int sub = c["sub"].get<int>();
+  const std::string dir = c17::scratch_dir();
+  Base base;
+  try
+    {
+      base = make_base(kind, c["spec"]);
+    }
+  catch (const std::exception& e)
+    {
+      return Result::reject(std::string("generated configuration refused at construction: ") + c17::enc(std::string(e.what()).substr(0, 80)));
+    }
+  c17::clean_scratch();
+  stats().cls(std::string("cut pairs | kind: ") + KIND_NAME[kind]);
+  std::vector<std::string> lines = c17::split_lines(base.text);
+  for (std::string& l : lines)
+    if (!l.empty() && l.back() == '\r')
+      l.pop_back();
+  const int eol_mode = int(c.value("eol", 0)) % 3;
+  if (eol_mode == 2)
+    {
+      // without the stop key line: the last line of every cut is an ordinary "key := value" line
+      for (std::size_t i = lines.size(); i-- > 0;)
+        {
+          const std::string k = c17::ref_standardise(lines[i].substr(0, lines[i].find(":=")));
+          if (k == "end of interfile" || k == "end")
+            {
+              lines.erase(lines.begin() + std::ptrdiff_t(i));
+              break;
+            }
+        }
+    }
+  const std::string eol = eol_mode == 1 ? "\r\n" : "\n";
+  const long n = long(lines.size());
+  if (n == 0)
+    return Result::reject("empty header");
+  // the data file (complete, as for data mode 0)
+  {
+    long want = std::min(base.declared_bytes(), long(MAX_DATA_BYTES));
+    std::string bytes(std::size_t(std::max(0L, want)), '\0');
+    SplitMix g{ uint64_t(c["dseed"].get<long>()) * 7919 + 1 };
+    for (std::size_t i = 0; i < bytes.size(); ++i)
+      bytes[i] = char(g.next() & 0x3f);
+    if (base.data_name != "d.s")
+      c17::write_file(dir + "/d.v", bytes);
+    if (base.data_name != "d.v")
+      c17::write_file(dir + "/d.s", bytes);
+  }
+  const std::string hdr_path = dir + "/d." + base.ext;
+#ifdef C17_ASAN
+  stir_verif::asserts_on = false;
+#endif
+  struct AssertsBack
+  {
+    ~AssertsBack() { stir_verif::asserts_on = true; }
+  } asserts_back;
+  std::string failure;
+  bool inconclusive = false;
+  auto run = [&](const std::string& text, Outcome& o) {
+    c17::write_file(hdr_path, text);
+    std::size_t refused = 0, max_single = 0;
+    const Isolated iso = run_isolated(target, sub, hdr_path, text, -1, o, refused, max_single);
+    if (iso.died == "timeout")
+      inconclusive = true;
+    else if (!iso.died.empty() && failure.empty())
+      failure = cat("a truncated library-written header makes the reader crash: ", iso.died, " ", c17::enc(iso.headline), "\n--- header:\n", c17::enc(text));
+    else if (refused != 0 && failure.empty())
+      failure = cat("a truncated library-written header makes the reader request ", refused, " bytes\n--- header:\n", c17::enc(text));
+  };
+  std::vector<long> ks;
+  if (c["cuts"].empty())
+    for (long k = 0; k < n; ++k)
+      ks.push_back(k);
+  else
+    for (const auto& x : c["cuts"])
+      ks.push_back(((x.get<long>() % n) + n) % n);
+#ifdef C17_ASAN
+  if (!c["cuts"].empty() && !c.value("keepcuts", false) && ks.size() > 3) // (generated cases: three cuts are enough for the memory checker)
+    ks.resize(3);
+#endif
+  std::sort(ks.begin(), ks.end());
+  ks.erase(std::unique(ks.begin(), ks.end()), ks.end());
+  const std::string where = cat("\n  kind=", KIND_NAME[kind], " reader=", TARGET_NAME[target], " sub=", sub % 7, " end-of-line=", eol_mode == 1 ? "\\r\\n" : "\\n",
+                                eol_mode == 2 ? " (stop key line dropped)" : "");
+  for (const long k : ks)
+    {
+      std::string behind;
+      for (long i = 0; i <= k; ++i)
+        behind += lines[std::size_t(i)] + eol;
+      std::vector<std::pair<std::string, std::string>> befores = { { "directly before the '\\n'", behind.substr(0, behind.size() - 1) } };
+      if (eol_mode == 1)
+        befores.push_back({ "directly before the \"\\r\\n\"", behind.substr(0, behind.size() - 2) });
+      Outcome oa;
+      run(behind, oa);
+      for (const auto& b : befores)
+        {
+          Outcome ob;
+          run(b.second, ob);
+          if (inconclusive)
+            return Result::reject("inconclusive: timeout");
+          if (!failure.empty())
+            return Result::fail(failure + where);
+          const std::string ctx = cat(where, "\n  line ", k + 1, " of ", n, ": '", c17::enc(lines[std::size_t(k)]), "'\n  cut behind the end-of-line: ", oa.how,
+                                      "\n  cut ", b.first, ": ", ob.how, "\n--- header (cut behind the end-of-line of the last line shown):\n", c17::enc(behind));
+          VF_CHECK(oa.accepted == ob.accepted, "truncation ", b.first, " of a line and directly behind it get different decisions", ctx);
+          if (oa.accepted)
+            {
+              VF_CHECK(oa.elements == ob.elements && oa.dims == ob.dims && oa.datasets == ob.datasets, "truncation ", b.first,
+                       " of a line gives an object of other sizes than truncation directly behind it: ", ob.elements, " / ", oa.elements, " elements", ctx);
+              VF_CHECK(oa.fp == ob.fp, "truncation ", b.first, " of a line gives another object than truncation directly behind it\n  behind: ", oa.fp,
+                       "\n  before: ", ob.fp, ctx);
+              VF_CHECK(oa.inconsistency.empty(), "accepted object is inconsistent: ", oa.inconsistency, ctx);
+            }
+          stats().cls(oa.accepted ? "cut pair: both accepted, same object" : "cut pair: both rejected");
+          stats().count("cut pairs compared");
+        }
+      // the complete header: "\r\n" line ends give what "\n" line ends give (documented)
+      if (k == n - 1 && eol_mode == 1)
+        {
+          std::string lf;
+          for (const std::string& l : lines)
+            lf += l + "\n";
+          Outcome ol;
+          run(lf, ol);
+          if (inconclusive)
+            return Result::reject("inconclusive: timeout");
+          if (!failure.empty())
+            return Result::fail(failure + where);
+          const std::string ctx = cat(where, "\n  \\n: ", ol.how, "\n  \\r\\n: ", oa.how, "\n--- header:\n", c17::enc(lf));
+          VF_CHECK(oa.accepted == ol.accepted, "the same header is decided differently with \"\\r\\n\" line ends than with \"\\n\" line ends", ctx);
+          if (oa.accepted)
+            VF_CHECK(oa.fp == ol.fp && oa.elements == ol.elements && oa.dims == ol.dims, "a header with \"\\r\\n\" line ends gives another object than with \"\\n\" line ends\n  \\r\\n: ",
+                     oa.fp, "\n  \\n:   ", ol.fp, ctx);
+          stats().cls("complete header: \\r\\n line ends compared with \\n line ends");
+          // unmutated library header with complete data: has to be accepted (as in the main clause)
+          if (kind != H_SIEMENS && kind != H_SIEMENS_LM)
+            VF_CHECK(ol.accepted, "a header written by the library itself (with a complete data file) is refused: ", ol.how, ctx);
+        }
+    }
+  g_last_nontrivial = true; // (truncated, start key present, both parses ran to the end of their input)
+  stats().cls("non-trivial (mutated, start key present, parse ran to the end)");
+  return Result::pass();
+}
+
 Result
 check(const json& c)
 {
@@ -2620,6 +2886,8 @@ check(const json& c)
   g_last_nontrivial = false;
   c17::ScratchCleaner cleaner;
   c17::clean_scratch();
+  if (c.value("cutpair", false))
+    return check_cut_pairs(c);
   const bool raw = c["raw"].get<bool>();
   const int kind = int(c["kind"].get<int>() % H_NKINDS);
   const int target = int(c["target"].get<int>() % T_NTARGETS);
@@ -2999,6 +3267,22 @@ fixed_cases(int)
         c["dmode"] = 0;
         c["dlen"] = 1;
         c["dseed"] = long(sd);
+        v.push_back(c);
+      }
+  // (ext5) cut pairs at EVERY line of one header of every kind, for each end-of-line mode
+  // (the comparison is the plain flavour's job; under ASan a reader run costs ~30 ms, so that flavour cuts at the last 6 lines only)
+  for (int kind = 0; kind < H_NKINDS; ++kind)
+    for (int eol = 0; eol < 3; ++eol)
+      {
+        PrngSrc s(90000 + 10 * uint64_t(kind) + uint64_t(eol));
+        json c = gen_cut_case(s, kind, true);
+        c["eol"] = eol;
+#ifdef C17_ASAN
+        if (eol != kind % 3)
+          continue;
+        c["cuts"] = json::array({ -1, -2, -3, -4, -5, -6 });
+        c["keepcuts"] = true;
+#endif
         v.push_back(c);
       }
   // every list x {shorter by 1, shorter by 2, longer by 1, longer by 2, empty, same length} of every kind once, deterministically
